@@ -303,6 +303,10 @@ class Interp:
             return
         if isinstance(obj, ObjV) and obj.cls == "dict":
             key = self.ev(idx, env)
+            if isinstance(key, ElemV) and isinstance(key.layout, Layout):
+                # d[str(name)] = value inside a loop over a layout-typed sequence: a keyword map over that layout
+                prev = obj.attrs.get("__kwlayout__")
+                obj.attrs["__kwlayout__"] = key.layout if prev in (None, key.layout) else Unknown("mixed keyword layouts")
             # dict keyed by a sensor key -> family
             obj.attrs["__fam__"] = join(obj.attrs["__fam__"], v) if "__fam__" in obj.attrs else v
             return
@@ -786,6 +790,10 @@ class Interp:
 
     # -------- typed linear algebra
     def matmul(self, a: ArrV, b: ArrV, env, node):
+        if isinstance(a.cols, Dim) and is_layout(b.rows) and a.origin == "eye" and axis_size(a.cols) == axis_size(b.rows):
+            a = ArrV(b.rows, b.rows, origin="eye", form=a.form)
+        if isinstance(b.rows, Dim) and is_layout(a.cols) and b.origin == "eye" and axis_size(b.rows) == axis_size(a.cols):
+            b = ArrV(a.cols, a.cols, origin="eye", form=b.form)
         ok = axes_equal(a.cols, b.rows)
         known = is_layout(a.cols) and is_layout(b.rows)
         if known:
@@ -794,6 +802,7 @@ class Interp:
         return ArrV(a.rows, b.cols, origin="matmul", form=fbin("@", a, b))
 
     def elementwise(self, sym, a: ArrV, b: ArrV, env, node):
+        a, b = adopt_axes(a, b), adopt_axes(b, a)
         known = all(is_layout(x) for x in (a.rows, a.cols, b.rows, b.cols))
         if known:
             ok = axes_equal(a.rows, b.rows) and axes_equal(a.cols, b.cols)
@@ -1003,10 +1012,10 @@ class Interp:
 
     def call_builtin(self, name, args, kwargs, env, n):
         a0 = args[0] if args else None
-        if name == "sorted":
-            return self.do_sorted(a0, kwargs.get("key"), env, n)
         if name in ("list", "sorted", "len", "set", "dict"):
             a0 = unwrap_elem(a0)
+        if name == "sorted":
+            return self.do_sorted(a0, kwargs.get("key"), env, n)
         if name == "list":
             if a0 is None:
                 return SeqV(Layout(()), "empty")
@@ -1148,8 +1157,8 @@ class Interp:
             if isinstance(a0, TupleV) and len(a0.items) == 2:
                 return ArrV(Dim(a0.items[0]), Dim(a0.items[1]), origin=name)
             return Unknown("np." + name)
-        if name == "eye":
-            return ArrV(Dim(a0), Dim(a0), origin="eye")
+        if name in ("eye", "identity"):
+            return ArrV(Dim(a0), Dim(a0), origin="eye", form=MatForm.identity())
         if name == "array":
             if isinstance(a0, tuple) and a0 and a0[0] == "NESTED":
                 inner = a0[1]
@@ -1269,6 +1278,8 @@ class Interp:
         return Unknown("execute result")
 
     def construct_named(self, cls: NCls, args, kwargs, starkw, env, n):
+        if isinstance(starkw, ObjV) and starkw.cls == "dict" and isinstance(starkw.attrs.get("__kwlayout__"), Layout):
+            starkw = KwMapV(starkw.attrs["__kwlayout__"])
         if isinstance(starkw, KwMapV):
             ok = starkw.layout == cls.layout
             self.oblige("LAY-SLOT", env, n, f"{cls.name}(**names of {starkw.layout})", ok,
@@ -1473,6 +1484,17 @@ def tag_of(v):
 
 def is_layout(x):
     return isinstance(x, Layout)
+
+
+def adopt_axes(a, other):
+    """an identity matrix allocated by size adopts the name-layout of the operand it is combined with (sizes must agree)"""
+    if isinstance(a, ArrV) and a.origin == "eye" and isinstance(a.rows, Dim) and isinstance(other, ArrV) \
+            and is_layout(other.rows) and is_layout(other.cols):
+        def lsz(l):
+            return SizeV.const(1) if l == ONE else l.unprime().size()
+        if axis_size(a.rows) == lsz(other.rows) and axis_size(a.cols) == lsz(other.cols):
+            return ArrV(other.rows, other.cols, origin="eye", form=a.form)
+    return a
 
 
 def axes_equal(a, b):
